@@ -62,6 +62,8 @@ PROP_MODELS = {
     'C03': ['numpy.poly1d'],
     'C19': ['numpy.poly1d', 'numpy.roots'],
     'C05': ['sqrt', 'mutableseq'],
+    'C08': ['sqrt', 'numpy.poly1d', 'numpy.roots', 'mutableseq'],
+    'C14': ['numpy.poly1d', 'numpy.small', 'mutableseq'],
     'C09': ['mutableseq'],
     'C10': ['trig', 'numpy.small', 'numpy.poly1d', 'mutableseq'],
     'C13': ['sqrt', 'numpy.poly1d', 'numpy.roots', 'mutableseq'],
